@@ -68,6 +68,11 @@ CHECKS = {
          "Every transaction of a generated history (committed, aborted, rejected; Update or Batch; operations routed through either store) is followed by a barrier; the multiset of (store, style, change type, id, delivered state) must equal the model-derived one, nothing may fire before the commit handler, commit actions run exactly once iff committed and tx-complete listeners exactly once per committed Db.Update.",
          "Asynchronous callbacks are awaited with bounded polls (5-10 s ceilings); extended-store events for plain parents are not asserted.",
          "DESIGN.md §3 C08"),
+ "C09": (True, "exploration",
+         "property-based testing (rapid): consistent databases built through the API, subsets of raw bbolt corruptions from 17 classes; oracle = completeness/soundness by token attribution, dump equality in check mode, model equality after one fix run",
+         "A generated API history yields a consistent database on which both modes must report nothing and change nothing; 1-5 raw corruptions (missing / extra / wrong-target unique entries, missing / extra / empty set-index entries and keys, missing / extra / dangling fk back-references and references, one-sided and dangling links, plus the unfixable duplicate-unique and null-in-non-nullable conflicts) are then written behind the API. The check-only run must report each, report nothing else, and leave the dump identical; one fix run followed by a re-check must report only the unfixable conflicts and the indexes, back-references and links must equal the model again.",
+         "Reports are matched by the ids/values they mention. Empty link/back-reference container buckets inside an entity (created lazily even by reads) are ignored when comparing dumps; empty index keys are not.",
+         "DESIGN.md §3 C09"),
  "C10": (True, "exploration",
          "property-based testing and fuzzing: grammar sentences with free operand types, token-level mutants, bounded-exhaustive token strings, random runes, foreign-character injections (rapid); native coverage-guided go fuzzing in the thorough tier; oracle = recover-guarded totality + independent rejection rule",
          "Every generated input is pushed through ast.Parse (bolt and in-memory symbol tables), and every query that parses is evaluated through QueryIds, IterateIds, in-memory EvalBool, ValidateSymbolsArePublic and ObjectStore.QueryEntities over an empty store, all-null rows and a rich dataset, all under recover: a panic, or a result that is neither exactly a query nor exactly an error, is a violation. Independently of the parser, a well-typed sentence with one character that occurs in no lexer rule inserted at a token boundary must be rejected. All token strings of length <= 3 (quick) / <= 4 (thorough) over a 41-token alphabet are enumerated.",
